@@ -84,17 +84,24 @@ func tokBytes(t string) []byte {
 	if t == "" || t == "b0" {
 		return nil
 	}
-	spec := strings.TrimPrefix(strings.SplitN(t, "#", 2)[0], "b")
+	// b<N>#name: N pseudo-random letters; z<N>#name: N zero bytes (compresses 1:1000); N may end in M (MiB, plus 5)
+	spec := strings.SplitN(t, "#", 2)[0]
+	zero := strings.HasPrefix(spec, "z")
+	spec = strings.TrimLeft(spec, "bz")
 	n := 0
-	if spec == "2M" {
-		n = 1<<21 + 5
+	if strings.HasSuffix(spec, "M") {
+		m, _ := strconv.Atoi(strings.TrimSuffix(spec, "M"))
+		n = m<<20 + 5
 	} else {
 		n, _ = strconv.Atoi(spec)
+	}
+	b := make([]byte, n)
+	if zero {
+		return b
 	}
 	h := fnv.New64a()
 	h.Write([]byte(t))
 	rng := rand.New(rand.NewSource(int64(h.Sum64())))
-	b := make([]byte, n)
 	for i := range b {
 		b[i] = byte('a' + rng.Intn(26))
 	}
@@ -523,7 +530,7 @@ func cmdC08(args []string) error {
 			{N: 2, WT: "len", Msg: true, Sub: []wField{{N: 1, WT: "len", V: "b3#k2"}, {N: 3, WT: "fix64", V: "v9"}}},
 			{N: 4, WT: "len", V: "b3#t"}}}})
 	bases = append([][]byte{small}, bases...)
-	hugeLens := []uint64{1 << 31, 1<<31 - 1, 1 << 32, 1 << 62, 1 << 63, 1<<63 + 1, 1<<64 - 1, 1<<64 - 8}
+	hugeLens := []uint64{1 << 31, 1<<31 - 1, 1 << 32, 1 << 62, 1<<63 - 1, 1<<63 - 2, 1<<63 - 9, 1<<63 - 40, 1<<63 - 300, 1 << 63, 1<<63 + 1, 1<<64 - 1, 1<<64 - 8}
 	nb := 3
 	if tierName == "thorough" {
 		nb = len(bases)
